@@ -55,6 +55,9 @@ CHECKS = {
  "C19": dict(engine="H+I", tech=H+"; "+I, ref="DESIGN.md §3 C19",
    text="For each of 128 configurations (code length x attempt limit x send limit x lifetime valid/expired x interval never/always x window never/always refreshed x mock on/off, clock frozen) every sequence up to depth 5 quick / 6 thorough of Send and Verify(right|wrong code x right|wrong hash, other pair's credentials) over two (area, phone) pairs on the real logic with a capturing SMS sender, against a per-pair reference of (code, hash, attempts, sends); pairs whose plain concatenations collide; the nonce generator driven with every index answer its source can give.",
    note="time.Now in vlogic.go redirected to a frozen virtual clock by the overlay; boundary send (MaxCount+1) may be accepted or refused"),
+ "C01": dict(engine="S", tech=S, ref="DESIGN.md §3 C01",
+   text="All interleavings (preemption bound 3 quick / 5 thorough for 3-thread programs, 2/3 for 4-thread ones; every select resolution) of readers, writers, context cancellers and holders on the real SemMap, WideSemMap and WideXHashSemMap for rwRatio 1..3 and 1..3 shards: per-key holder counters at every entry, black-box arrival order, failed acquires never enter, deadlock = lost hand-off (cancel re-notify), entry residue checked at every scheduling decision and at the end, leaked-token probe.",
+   note="vsync model of Mutex/close-broadcast channels/select; data-race freedom of scenario bodies; T<=5 threads, 2 keys"),
 }
 NA = {}
 
